@@ -120,6 +120,17 @@ def classify(run, res):
         return ("panic:" + where, norm_msg(err.split("panicked at", 1)[1][:300]))
     if rc < 0:
         return ("signal:%d" % (-rc), first_err[:200])
+    if "alternatives" in exp:
+        # several acceptable outcomes (status, exact stdout, first stderr line)
+        for (arc, aout, aerr) in exp["alternatives"]:
+            if rc == arc and out == aout and (aerr is None and not err.strip() or aerr == first_err):
+                return None
+        want = " | ".join("status %d %r" % (a[0], a[2]) for a in exp["alternatives"])
+        if rc in TRAPS and not any(rc == a[0] for a in exp["alternatives"]):
+            return ("trap:" + TRAPS[rc], "exit status %d (%s) %r, expected %s" % (rc, TRAPS[rc], first_err[:80], want))
+        if any(rc == a[0] for a in exp["alternatives"]):
+            return ("output-mismatch", "status %d as expected but stdout %r / stderr %r differ (expected %s)" % (rc, out[:80], first_err[:80], want))
+        return ("exit:%d" % rc, "stdout %r stderr %r, expected %s" % (out[:60], first_err[:80], want))
     exp_rc = exp.get("rc", 0)
     if rc != exp_rc:
         if rc in TRAPS:
@@ -385,9 +396,18 @@ def handle_violations(prop, batch, exes, shrink=None, expect_fn=None, key_fn=Non
     seen = set()
     batch.violations.sort(key=lambda t: t[0]["index"])
     for run, res, v in batch.violations:
-        if v[0] in seen or len(seen) >= 3:
+        k0 = key_fn(run, v) if key_fn else "%s:%s" % (run["exe"][0], v[0])
+        if k0 in seen or len(seen) >= 6:
             continue
-        seen.add(v[0])
+        seen.add(k0)
+        if match_known(prop, k0):
+            # a listed finding: confirm it still reproduces, report it as known, do not minimise
+            cres = execute(run, exes)
+            cv = classify(run, cres)
+            if cv is not None:
+                report_known(prop, match_known(prop, k0)["what"])
+                reported.append({"class": cv[0], "detail": cv[1], "known_finding": k0})
+            continue
         mrun, mres, mv = run, res, v
         if shrink is not None:
             try:
